@@ -64,6 +64,12 @@ def gen_cases(tier, rng):
 
 
 def run_utmi(desc):
+    # Replays of reactive (closed-loop) cases re-run the behavioural PHY from the recorded seed instead of
+    # applying the recorded pin values open loop: the PHY's inputs depend on what the gateware does, so an
+    # open-loop replay on a different tree would present an incoherent (illegal) PHY.
+    if desc.get("stimulus") and not desc.get("corpus") and not desc.get("note"):   # hand-made corpus traces stay open loop
+        desc = dict(desc)
+        desc["cycles"] = max(1, len(desc.pop("stimulus")))
     rng = Rng(desc["seed"])
     k = desc.get("k", 0)
     n = desc.get("cycles", 700)
